@@ -25,7 +25,11 @@ enum Ev {
 const STEPS_MS: [u64; 6] = [1_000, 9_999, 10_001, 49_999, 50_001, 100_000];
 const GRACE_MS: u64 = 100_000;
 const MAX_INTERVAL_MS: u64 = 10_000;
-const INITIAL_MS: u64 = 5_000;
+static INITIAL_MS_CFG: std::sync::atomic::AtomicU64 = std::sync::atomic::AtomicU64::new(5_000);
+#[allow(non_snake_case)]
+fn INITIAL_MS_() -> u64 {
+    INITIAL_MS_CFG.load(std::sync::atomic::Ordering::Relaxed)
+}
 const PHI: f64 = 8.0;
 const WINDOW: usize = 3;
 
@@ -72,7 +76,7 @@ impl MWin {
             return None;
         }
         let last = self.last_hb_ms?;
-        let mean = (self.sum + 5.0 * Duration::from_millis(INITIAL_MS).as_secs_f64()) / (n as f64 + 5.0);
+        let mean = (self.sum + 5.0 * Duration::from_millis(INITIAL_MS_()).as_secs_f64()) / (n as f64 + 5.0);
         Some(Duration::from_millis(now_ms - last).as_secs_f64() / mean)
     }
     fn reset(&mut self) {
@@ -101,7 +105,7 @@ async fn run_history(evs: &[Ev], r: &mut Report) {
         }
     }
     r.evaluations += 1;
-    let cfg = FailureDetectorConfig::new(PHI, WINDOW, Duration::from_millis(MAX_INTERVAL_MS), Duration::from_millis(INITIAL_MS), Duration::from_millis(GRACE_MS));
+    let cfg = FailureDetectorConfig::new(PHI, WINDOW, Duration::from_millis(MAX_INTERVAL_MS), Duration::from_millis(INITIAL_MS_()), Duration::from_millis(GRACE_MS));
     let mut fd = FailureDetector::new(cfg);
     let mut m = MFd::default();
     let mut interesting = false;
@@ -135,7 +139,7 @@ async fn run_history(evs: &[Ev], r: &mut Report) {
                 // C10: silent for longer than phi x max(max_interval, initial_interval) => dead
                 if let Some(w) = m.win.get(&n) {
                     if let Some(last) = w.last_hb_ms {
-                        if (m.now_ms - last) as f64 / 1000.0 > PHI * (MAX_INTERVAL_MS.max(INITIAL_MS) as f64 / 1000.0) && fd.live_nodes().any(|x| *x == nid(n)) {
+                        if (m.now_ms - last) as f64 / 1000.0 > PHI * (MAX_INTERVAL_MS.max(INITIAL_MS_()) as f64 / 1000.0) && fd.live_nodes().any(|x| *x == nid(n)) {
                             r.fail("c10-not-dead", format!("member {n} silent for {} ms is still live after evaluation", m.now_ms - last), case.clone());
                         }
                     }
@@ -253,6 +257,24 @@ async fn verif_fd_model() {
             break;
         }
     }
+    // the structured family and the seeded histories are run under two configurations: the default
+    // (initial 5 s) and one whose initial interval is above max_interval / 2 (8 s)
+    for cfg_initial in [5_000u64, 8_000] {
+    INITIAL_MS_CFG.store(cfg_initial, std::sync::atomic::Ordering::Relaxed);
+    // slow-but-valid / too-slow arrivals: intervals of 9.999 s (kept) and 10.001 s (dropped)
+    for pattern in 0..4u8 {
+        let mut seq = vec![Ev::Report(0)];
+        for i in 0..8u8 {
+            seq.push(Ev::Advance(if (pattern >> (i % 2)) & 1 == 1 { 2 } else { 1 }));
+            seq.push(Ev::Report(0));
+            seq.push(Ev::Update(0));
+        }
+        for _ in 0..10 {
+            seq.push(Ev::Advance(1));
+            seq.push(Ev::Update(0));
+        }
+        run_history(&seq, &mut r).await;
+    }
     // structured family: n steady intervals (possibly wrapping the window), death by silence,
     // revival with k fresh heartbeats, then evaluations through a long silence
     for n_pre in 1..=(2 * WINDOW as u8 + 2) {
@@ -284,6 +306,8 @@ async fn verif_fd_model() {
         let seq: Vec<Ev> = (0..30).map(|_| alpha[rng.below(alpha.len() as u64) as usize]).collect();
         run_history(&seq, &mut r).await;
     }
+    }
+    INITIAL_MS_CFG.store(5_000, std::sync::atomic::Ordering::Relaxed);
     r.emit();
 }
 
@@ -299,7 +323,7 @@ async fn verif_c11_steady() {
     let mut rng = Rng64(seed() ^ 0xC11);
     for (a, b) in [(100u64, 100u64), (100, 800), (500, 5000), (1000, 10_000), (4000, 8000), (10_000, 10_000)] {
         for win in [1usize, 3, 1000] {
-            let need = b as f64 / (a.min(INITIAL_MS) as f64);
+            let need = b as f64 / (a.min(INITIAL_MS_()) as f64);
             for thr in [need, need + 0.5] {
                 let case = format!("a={a} b={b} window={win} phi_threshold={thr}");
                 if let Some(rc) = replay_case() {
@@ -307,7 +331,7 @@ async fn verif_c11_steady() {
                         continue;
                     }
                 }
-                let cfg = FailureDetectorConfig::new(thr, win, Duration::from_millis(MAX_INTERVAL_MS), Duration::from_millis(INITIAL_MS), Duration::from_millis(GRACE_MS));
+                let cfg = FailureDetectorConfig::new(thr, win, Duration::from_millis(MAX_INTERVAL_MS), Duration::from_millis(INITIAL_MS_()), Duration::from_millis(GRACE_MS));
                 let mut fd = FailureDetector::new(cfg);
                 let id = nid(0);
                 fd.report_heartbeat(&id);
